@@ -138,7 +138,7 @@ type DSOpts struct {
 	Name       string // reuse an existing cache instance (restart); empty = fresh
 	Validation *config.Validation
 	Sync       *config.Sync
-	Cache      cache.Client  // decorated cache client, default w.Cache
+	Cache      cache.Client   // decorated cache client, default w.Cache
 	Schema     dschema.Client // decorated schema client, default w.Schema
 	Device     *dev.Device
 }
